@@ -27,6 +27,8 @@ EFFECT = {"OFF": False, "DISABLE": False, "ON": True, "ENABLE": True, "C_OFF": F
 
 ALPHABET = {
     "at": ["OFF", "ON", "BOGUS", "OTHER", "DISABLE", "ENABLE"],
+    "at4": ["OFF", "ON", "BOGUS", "OTHER"],
+    "rel": [S("G91")],
     "at-custom": ["C_OFF", "C_ON", "C_NOMATCH", "OFF"],
     "off": ["OFF", "C_OFF"],
     "on": ["ON", "ENABLE"],
@@ -156,10 +158,13 @@ def plan(tier):
                             bounds={"template": names},
                             excludable=[KF_REL_EXIT, KF_ENTER_Z, KF_SYNTH_E_REL]))
     add("mid-episode", "enter,at,any")
-    add("off-moves-on-move", "off,moves,moves,on,any", "rd")
+    add("relative-mid-episode", "rel,enter,off,any")
+    add("off-move-on-move", "off,moves,on,any", "rd")
     add("custom", "enter,at-custom,any")
-    add("at-at", "at,any,at,any")
+    add("at-at", "at4,any,at4,any")
     if tier == "thorough":
+        add("off-moves-on-move", "off,moves,moves,on,any", "rd")
+        add("at6-at6", "at,any,at,any")
         add("enter-off-moves-on-move", "enter,off,moves,on,any", "rd")
         add("at-custom-2", "at-custom,any,at-custom,any")
     return out
